@@ -64,6 +64,22 @@ impl Case17 {
                 return e("discard", "program not admissible".into());
             }
         }
+        // data-dependent branches: the magnitudes above are only meaningful if the library takes the model's branches
+        if self.hist.steps.iter().any(|s| matches!(s, Step::IfGt { .. })) {
+            let mut gm = RefState::forward_only();
+            let mut gx = Exec::new();
+            for s in &self.hist.steps {
+                if let Some(why) = branch_guard(&gm, &gx, s) {
+                    return e("discard", why);
+                }
+                if gm.step(s).is_err() {
+                    return e("discard", "program not admissible".into());
+                }
+                if let Err(p) = gx.step(s) {
+                    return e("discard", format!("the program panicked: {}", p));
+                }
+            }
+        }
         let exact_prog = m.nodes.iter().all(|n| n.exact);
         let comb: Vec<f64> = self.s1.iter().zip(&self.s2).map(|(a, b)| self.alpha * a + self.beta * b).collect();
         let exact = exact_prog && self.s1.iter().chain(&self.s2).chain(&comb).all(|v| is_exact_value(*v)) && refmodel::ir::is_dyadic(self.alpha) && refmodel::ir::is_dyadic(self.beta);
